@@ -377,6 +377,23 @@ example : tyToks (.aggr "LIST" (some (.lit (.int 1), .lit .infinity)) false fals
     = [.kw "LIST", .sym "[", .ex (.lit (.int 1)), .sym ":", .ex (.lit .infinity), .sym "]", .kw "OF", .kw "REAL",
        .sym "(", .ex (.ident "digits"), .sym ")"] := by decide
 
+/-- **LOCAL block** — `SCOPElocals_out` prints the block exactly when the algorithm has local variables, whatever the line
+length (its only early exit, `if( !max_indent ) return;`, tests the length of the longest name: regenerated
+`localsWidthIsNameLength`), and the block reads back as the same variables, types and initialisers. -/
+theorem C07_locals_roundtrip (ls : List Local) (hn : ∀ l ∈ ls, l.name.length ≠ 0) (hwf : ∀ l ∈ ls, wfTy l.ty)
+    (D : Nat) (hD : ∀ l ∈ ls, tyDepth l.ty ≤ D) (r : List DTok) (hr : ∀ r', r ≠ .kw "LOCAL" :: r') :
+    parseLocals (ls.length + D + 1) (localsToks ls ++ r) = some (ls, r) :=
+  locals_roundtrip ls hn hwf D hD r hr
+
+theorem C07_locals_printed_iff (ls : List Local) (hn : ∀ l ∈ ls, l.name.length ≠ 0) : localsToks ls = [] ↔ ls = [] := by
+  unfold localsToks
+  constructor
+  · intro h
+    by_cases h0 : localsWidth ls = 0
+    · exact (localsWidth_zero_iff ls hn).mp h0
+    · simp [h0] at h
+  · intro h; subst h; simp [localsWidth]
+
 /-! ## layout layer -/
 
 def isWs (c : Char) : Bool := c == ' ' || c == '\n'
@@ -861,6 +878,54 @@ theorem C07_weave_value (seps ps : List (List Char)) (h : seps.length = ps.lengt
     cases seps with
     | nil => simp at h
     | cons x xs => simp [weave, ih xs (by simpa using h)]
+
+/-! ### remarks -/
+
+/-- every place where exppp prints a `--` remark uses `raw` and is followed only by `raw` calls up to the raw newline
+(regenerated from all of src/exppp/*.c): nothing that could start a continuation line is printed inside a remark -/
+theorem C07_remark_sites_raw : ∀ s ∈ ExpPrec.remarkSites, s.2.1 = "raw" ∧ s.2.2 = true := by decide
+
+/-- `raw` fragments are emitted verbatim at every line length, indent and position: nothing is inserted or removed -/
+theorem C07_raw_verbatim (ss : List (List Char)) : ∀ st : PState, (run st (ss.map Frag.raw)).text = st.text ++ ss.flatten := by
+  induction ss with
+  | nil => intro st; simp [run]
+  | cons s ss ih =>
+    intro st
+    simp only [List.map_cons, run, List.foldl_cons, step] at ih ⊢
+    rw [ih (raw st s), text_raw]; simp
+
+/-- whatever the engine prints, it only appends -/
+theorem run_appends (fs : List Frag) : ∀ st : PState, ∃ tail, (run st fs).text = st.text ++ tail := by
+  induction fs with
+  | nil => intro st; exact ⟨[], by simp [run]⟩
+  | cons f fs ih =>
+    intro st
+    obtain ⟨tail, ht⟩ := ih (step st f)
+    simp only [run, List.foldl_cons] at ht ⊢
+    have hstep : ∃ t1, (step st f).text = st.text ++ t1 := by
+      cases f with
+      | raw s => exact ⟨s, text_raw st s⟩
+      | wrap s =>
+        obtain ⟨sep, k, h, _, _⟩ := C07_wrap_decomp st s
+        exact ⟨sep ++ s.drop k, by simp [step, h, List.append_assoc]⟩
+      | str s p =>
+        rcases C07_breakLongStr_exact st s p with ⟨lead, _, h⟩ | ⟨opn, cls, first, seps, _, _, _, _, h⟩
+        · exact ⟨lead ++ ['\''] ++ escQ s ++ ['\''], by simp [step, h, List.append_assoc]⟩
+        · exact ⟨opn ++ weave (first :: seps) (splitDots (escQ s)) ++ cls, by simp [step, h, List.append_assoc]⟩
+    obtain ⟨t1, h1⟩ := hstep
+    exact ⟨t1 ++ tail, by rw [ht, h1, List.append_assoc]⟩
+
+/-- **A tail remark ends its line.**  `tail_comment` prints ` -- name` and the newline with `raw`: at every line length, in
+every state and whatever is printed afterwards, the output is the text so far, the remark, a newline, and then the rest —
+no fragment printed after the `--` lands on the remark's line, and nothing is broken out of the remark onto a code line
+(the remark itself is verbatim). -/
+theorem C07_tail_remark_ends_line (st : PState) (name : List Char) (fs : List Frag) :
+    ∃ tail, (run st (.raw (" -- ".toList ++ name) :: .raw ['\n'] :: fs)).text
+      = st.text ++ (" -- ".toList ++ name) ++ '\n' :: tail := by
+  obtain ⟨tail, ht⟩ := run_appends fs (raw (raw st (" -- ".toList ++ name)) ['\n'])
+  refine ⟨tail, ?_⟩
+  simp only [run, List.foldl_cons, step] at ht ⊢
+  rw [ht, text_raw, text_raw]; simp [List.append_assoc]
 
 /-- hypotheses are satisfiable / the engine really breaks lines: width 10, continuation indent 4 -/
 example : (run { linelen := 10, indent2 := 4, curpos := 9 } [W "abc", R " ", W "+", W " ", W "de"]).text
